@@ -326,14 +326,79 @@ pub fn rules_unit(ctx: &Ctx, rng: &mut Rng, o: &mut Out, share_vars: bool) {
       );
       // every node of the (small) document
       let results: Vec<Value> = all.iter().map(|n| match_result(&core, n, &ids)).collect();
+      let node_ids: Vec<usize> = all.iter().map(|n| ids.of(n)).collect();
       o.op(
         "rule_match",
-        json!({"t": tid, "core": dump, "regex": rxt, "spec": spec, "nodes": all.iter().map(|n| ids.of(n)).collect::<Vec<_>>()}),
+        json!({"t": tid, "core": dump, "regex": rxt, "spec": spec, "nodes": node_ids}),
         json!(results),
       );
+      if !share_vars {
+        // C05 oracle: the reference semantics (Lean `Spec.sat`, run by the driver on the dumped
+        // tree) must agree with the implementation's verdict on every node
+        let verdicts: Vec<Value> = results.iter().map(|r| if r.is_object() { json!(!r["m"].is_null()) } else { r.clone() }).collect();
+        o.op(
+          "oracle:sat",
+          json!({"t": tid, "core": dump, "regex": rxt, "spec": spec, "nodes": node_ids, "fp": sat_fingerprint(&spec)}),
+          json!(verdicts),
+        );
+      }
     }
   }
   o.oracle("rules-loaded", true, json!({"cases": loaded, "rejected": rejected, "contract_excluded_trees": excluded}));
+}
+
+/// input-class fingerprint of a rule for the C05 oracle: which risky constructions it contains
+pub fn sat_fingerprint(spec: &Value) -> String {
+  let mut feats: Vec<&str> = vec![];
+  fn has_var(v: &Value) -> bool {
+    match v {
+      Value::String(s) => s.contains('$'),
+      Value::Array(a) => a.iter().any(has_var),
+      Value::Object(o) => o.values().any(has_var),
+      _ => false,
+    }
+  }
+  fn walk(v: &Value, in_rel: bool, feats: &mut Vec<&'static str>) {
+    match v {
+      Value::Array(a) => a.iter().for_each(|x| walk(x, in_rel, feats)),
+      Value::Object(o) => {
+        for (k, x) in o {
+          match k.as_str() {
+            "inside" | "has" | "precedes" | "follows" => {
+              if k == "has" && x.get("field").is_some() && x.get("stopBy").map(|s| s.is_object()).unwrap_or(false) {
+                feats.push("has-field-stopByRule");
+              }
+              if (k == "precedes" || k == "follows") {
+                feats.push("sibling-relation");
+              }
+              walk(x, true, feats)
+            }
+            "not" => {
+              if in_rel && has_var(x) {
+                feats.push("not-with-var-under-relation");
+              }
+              walk(x, in_rel, feats)
+            }
+            "nthChild" => {
+              if x.get("ofRule").map(has_var).unwrap_or(false) {
+                feats.push("ofRule-with-var");
+              }
+              walk(x, in_rel, feats)
+            }
+            "matches" => feats.push("matches"),
+            _ => walk(x, in_rel, feats),
+          }
+        }
+      }
+      _ => {}
+    }
+  }
+  walk(spec, false, &mut feats);
+  feats.sort();
+  feats.dedup();
+  // sibling relations only matter for the fingerprint when nothing else is special
+  let f: Vec<&str> = feats.into_iter().filter(|f| *f != "sibling-relation" && *f != "matches").collect();
+  if f.is_empty() { "sat:plain".to_string() } else { format!("sat:{}", f.join("+")) }
 }
 
 fn guard_load(spec: &Value, lang: SupportLang) -> Result<RuleCore<SupportLang>, String> {
